@@ -158,6 +158,7 @@ PROPS = {
             J("par2", "C16_crc_window", bound="window sizes 4,8,12,16,20,32,64; all windows of n+1 symbolic bytes"),
             J("par2", "C16_crc_window_big", tier="thorough", bound="window sizes 24,28,100,128,256,512,1000,2000"),
             J("par2", "C16_search_arbitrary", bound="1 file of 4/5/8 bytes, slice 4; insertion of 1..4 bytes, truncation at every length, appended bytes, one overwritten slice"),
+            J("par2", "C16_search_sym", tier="thorough", bound="1 file of 4/5 fully symbolic bytes; insertion, truncation, append; oracle = slices surviving at a non-overlapped offset", timeout=3000),
         ],
     ),
     "C01": dict(
@@ -167,6 +168,7 @@ PROPS = {
         jobs=[
             J("par2", "C01_repair_one", bound="1 file of 4/5/8 bytes, slice 4, 2 recovery blocks, goroutines 1..2, damage: intact, missing, one slice overwritten, 1..4 bytes inserted at the front, truncated at every length, 1..2 bytes appended, arbitrary content of length 0..len+1; double-check on/off", must_reach=["repaired"]),
             J("par2", "C01_repair_two", bound="2 files of 4 and 5 bytes, 2 blocks; per-file damage as above (first file: 4 kinds, second: 2) or the two files swapped", must_reach=["repaired"]),
+            J("par2", "C01_repair_sym", tier="thorough", bound="1 file of 4/5 fully symbolic bytes, 2 blocks, 6 structured damage kinds", timeout=5000),
         ],
     ),
     "C02": dict(
@@ -185,6 +187,7 @@ PROPS = {
             J("par2", "C03_verify_one", bound="1 file of 4/5/8 bytes, 1 block present or deleted, 6 structured damage kinds"),
             J("par2", "C03_verify_two", bound="2 files of 4 and 5 bytes, 2 blocks, per-file damage or files swapped"),
             J("par2", "C03_verify_arbitrary", bound="1 file of 4/5 bytes, arbitrary current content"),
+            J("par2", "C03_verify_sym", tier="thorough", bound="1 file of 4/5 fully symbolic bytes, 6 structured damage kinds (1 symbolic damage byte)", timeout=3000),
         ],
     ),
     "C14": dict(
